@@ -31,97 +31,102 @@ def run(ctx):
 
     # ------------------------------------------------------------------ C04-first-match
     ctx.rule("C04-first-match", "rules are tried in textual order and the first match wins")
-    p = Prov(tr)
-    its = [(b, t) for b, t in tr.calls() if callee_matches(t, "IntoIterator>::into_iter", "<impl [T]>::iter")]
-    reorder = [callee(t) for _, t in tr.calls() if callee_matches(
-        t, "Iterator::rev", "<impl [T]>::sort", "<impl [T]>::sort_by", "Iterator::filter", "Iterator::skip", "Iterator::enumerate",
-        "<impl [T]>::reverse", "Iterator::last", "Iterator::max_by", "Iterator::min_by", "<impl [T]>::sort_by_key",
-        "Iterator::step_by", "Iterator::rfind", "Iterator::rposition", "<impl [T]>::iter_mut", "DoubleEndedIterator::next_back",
-        "Iterator::filter_map", "Iterator::find_map", "Iterator::find", "Iterator::position")]
-    if len(its) != 1:
-        ctx.report("C04-first-match", "iteration", "expected one iteration over the rules, found %d" % len(its), where_of(tr))
-    else:
-        src = mir.trace_place(tr, its[0][1]["args"][0])[0]
-        ctx.inst("C04-first-match", "iteration", {"over": src, "iterator": callee(its[0][1])})
-        if not src.endswith(".rules"):
-            ctx.report("C04-first-match", "iteration/source", "the loop iterates %s, not self.rules" % src, where_of(tr, its[0][1]))
-        if callee(its[0][1]) != "<&std::vec::Vec as std::iter::IntoIterator>::into_iter" and not callee_matches(its[0][1], "<impl [T]>::iter"):
-            ctx.report("C04-first-match", "iteration/kind", "rules are iterated with %s" % callee(its[0][1]), where_of(tr, its[0][1]))
-    if reorder:
-        ctx.report("C04-first-match", "reordered", "rule order is altered / selected by %s" % reorder, where_of(tr))
-    nexts = [(b, t) for b, t in tr.calls() if callee_matches(t, "Iterator>::next")]
-    mcalls = [(b, t) for b, t in tr.calls() if callee(t) == md.name]
-    scalls = [(b, t) for b, t in tr.calls() if callee(t) == SUB]
-    loops = tr.loops()
-    if len(nexts) != 1 or len(mcalls) != 1 or len(scalls) != 1 or not loops:
-        ctx.report("C04-first-match", "shape", "transform: shape not recognised (next=%d match_datum=%d substitude=%d loops=%d)" % (
-            len(nexts), len(mcalls), len(scalls), len(loops)), where_of(tr))
-    else:
-        head, body = loops[0]
-        mb, mt = mcalls[0]
-        sbk, st = scalls[0]
-        # pattern = item.0, template = item.1 of the same `next()` item; datum = parameter 3; literals = self.literals
-        pr, ppath = mir.trace_access(tr, mt["args"][0])
-        tr_, tpath = mir.trace_access(tr, st["args"][0])
-        ctx.inst("C04-first-match", "rule-components", {"pattern": ppath, "template": tpath})
-        if ppath[-3:] != ["Some", 0, 0] or tpath[-3:] != ["Some", 0, 1] or pr != tr_:
-            ctx.report("C04-first-match", "components", "pattern/template are not .0/.1 of the current rule (%s / %s)" % (ppath, tpath), where_of(tr))
-        if p.arg_roots(mt["args"][1]) != {3}:
-            ctx.report("C04-first-match", "datum", "the matcher is not given the macro use", where_of(tr, mt))
-        lit = mir.trace_place(tr, mt["args"][3])[0]
-        if not lit.endswith(".literals"):
-            ctx.report("C04-first-match", "literals", "the matcher is not given self.literals (%s)" % lit, where_of(tr, mt))
-        # substitutions: fresh HashMap::new() inside the loop, same map for match and substitution
-        m_map = {c for _, c in p.call_roots(mt["args"][4])}
-        s_map = {c for _, c in p.call_roots(st["args"][1])}
-        newb = [b for b, t in tr.calls() if callee_matches(t, "std::collections::HashMap::new")]
-        ctx.inst("C04-first-match", "substitution-map", {"match": sorted(m_map), "substitute": sorted(s_map), "fresh_in_loop": all(b in body for b in newb)})
-        if m_map != {"std::collections::HashMap::new"} or s_map != m_map or not newb or any(b not in body for b in newb):
-            ctx.report("C04-first-match", "substitutions", "each rule must be matched into a fresh substitution map that is then "
-                       "used for its template", where_of(tr))
-        # success edge: the bool payload of match_datum's Ok -> true target must not return to the loop head
-        succ_t = fail_t = None
-        for b in tr.reachable(mt["target"]):
-            term = tr.blocks[b]["term"]
-            if term["k"] == "switch" and term["targets"] and term["targets"][0][0] == 0 and len(term["targets"]) == 1:
-                dl = mir.op_local(term["discr"])
-                if dl is not None and tr.local_ty(dl) == "bool" and ("call", mb, md.name) in p.roots(dl):
-                    succ_t, fail_t = term["otherwise"], term["targets"][0][1]
-                    break
-        if succ_t is None:
-            ctx.report("C04-first-match", "success-edge", "the result of match_datum is not branched on", where_of(tr, mt))
+    from . import macrotables
+    ctx.rule("C04-no-match-error", "a use that matches no rule is a syntax error")
+    d_first = macrotables.rule_first_match(ctx, "C04-first-match", "C04-no-match-error")
+    def _old_first():
+        p = Prov(tr)
+        its = [(b, t) for b, t in tr.calls() if callee_matches(t, "IntoIterator>::into_iter", "<impl [T]>::iter")]
+        reorder = [callee(t) for _, t in tr.calls() if callee_matches(
+            t, "Iterator::rev", "<impl [T]>::sort", "<impl [T]>::sort_by", "Iterator::filter", "Iterator::skip", "Iterator::enumerate",
+            "<impl [T]>::reverse", "Iterator::last", "Iterator::max_by", "Iterator::min_by", "<impl [T]>::sort_by_key",
+            "Iterator::step_by", "Iterator::rfind", "Iterator::rposition", "<impl [T]>::iter_mut", "DoubleEndedIterator::next_back",
+            "Iterator::filter_map", "Iterator::find_map", "Iterator::find", "Iterator::position")]
+        if len(its) != 1:
+            ctx.report("C04-first-match", "iteration", "expected one iteration over the rules, found %d" % len(its), where_of(tr))
         else:
-            back = head in tr.reachable(succ_t)
-            fail_back = head in tr.reachable(fail_t)
-            ctx.inst("C04-first-match", "success-edge", {"success_continues_loop": back, "failure_continues_loop": fail_back})
-            if back:
-                ctx.report("C04-first-match", "success-continues", "after a rule matches the loop continues (a later rule can win)", where_of(tr))
-            if not fail_back:
-                ctx.report("C04-first-match", "failure-stops", "after a rule fails the remaining rules are not tried", where_of(tr))
-            if sbk not in mir.dominated_region(tr, succ_t):
-                ctx.report("C04-first-match", "substitute-on-success", "the template is not substituted on the success edge", where_of(tr, st))
-            # result: Ok(popped single datum) derives from substitude
-            okb = [(b, s) for b, i, s, a, v in mir.aggregates(tr, mir.dominated_region(tr, succ_t)) if v == "Ok" and s["place"]["local"] == 0]
-            for b, s in okb:
-                if SUB not in p.taint_calls(mir.op_local(s["rv"]["ops"][0])):
-                    ctx.report("C04-first-match", "result", "the expansion returned is not the substituted template", where_of(tr))
-            if not okb:
-                ctx.report("C04-first-match", "result", "no Ok result on the success edge", where_of(tr))
+            src = mir.trace_place(tr, its[0][1]["args"][0])[0]
+            ctx.inst("C04-first-match", "iteration", {"over": src, "iterator": callee(its[0][1])})
+            if not src.endswith(".rules"):
+                ctx.report("C04-first-match", "iteration/source", "the loop iterates %s, not self.rules" % src, where_of(tr, its[0][1]))
+            if callee(its[0][1]) != "<&std::vec::Vec as std::iter::IntoIterator>::into_iter" and not callee_matches(its[0][1], "<impl [T]>::iter"):
+                ctx.report("C04-first-match", "iteration/kind", "rules are iterated with %s" % callee(its[0][1]), where_of(tr, its[0][1]))
+        if reorder:
+            ctx.report("C04-first-match", "reordered", "rule order is altered / selected by %s" % reorder, where_of(tr))
+        nexts = [(b, t) for b, t in tr.calls() if callee_matches(t, "Iterator>::next")]
+        mcalls = [(b, t) for b, t in tr.calls() if callee(t) == md.name]
+        scalls = [(b, t) for b, t in tr.calls() if callee(t) == SUB]
+        loops = tr.loops()
+        if len(nexts) != 1 or len(mcalls) != 1 or len(scalls) != 1 or not loops:
+            ctx.report("C04-first-match", "shape", "transform: shape not recognised (next=%d match_datum=%d substitude=%d loops=%d)" % (
+                len(nexts), len(mcalls), len(scalls), len(loops)), where_of(tr))
+        else:
+            head, body = loops[0]
+            mb, mt = mcalls[0]
+            sbk, st = scalls[0]
+            # pattern = item.0, template = item.1 of the same `next()` item; datum = parameter 3; literals = self.literals
+            pr, ppath = mir.trace_access(tr, mt["args"][0])
+            tr_, tpath = mir.trace_access(tr, st["args"][0])
+            ctx.inst("C04-first-match", "rule-components", {"pattern": ppath, "template": tpath})
+            if ppath[-3:] != ["Some", 0, 0] or tpath[-3:] != ["Some", 0, 1] or pr != tr_:
+                ctx.report("C04-first-match", "components", "pattern/template are not .0/.1 of the current rule (%s / %s)" % (ppath, tpath), where_of(tr))
+            if p.arg_roots(mt["args"][1]) != {3}:
+                ctx.report("C04-first-match", "datum", "the matcher is not given the macro use", where_of(tr, mt))
+            lit = mir.trace_place(tr, mt["args"][3])[0]
+            if not lit.endswith(".literals"):
+                ctx.report("C04-first-match", "literals", "the matcher is not given self.literals (%s)" % lit, where_of(tr, mt))
+            # substitutions: fresh HashMap::new() inside the loop, same map for match and substitution
+            m_map = {c for _, c in p.call_roots(mt["args"][4])}
+            s_map = {c for _, c in p.call_roots(st["args"][1])}
+            newb = [b for b, t in tr.calls() if callee_matches(t, "std::collections::HashMap::new")]
+            ctx.inst("C04-first-match", "substitution-map", {"match": sorted(m_map), "substitute": sorted(s_map), "fresh_in_loop": all(b in body for b in newb)})
+            if m_map != {"std::collections::HashMap::new"} or s_map != m_map or not newb or any(b not in body for b in newb):
+                ctx.report("C04-first-match", "substitutions", "each rule must be matched into a fresh substitution map that is then "
+                           "used for its template", where_of(tr))
+            # success edge: the bool payload of match_datum's Ok -> true target must not return to the loop head
+            succ_t = fail_t = None
+            for b in tr.reachable(mt["target"]):
+                term = tr.blocks[b]["term"]
+                if term["k"] == "switch" and term["targets"] and term["targets"][0][0] == 0 and len(term["targets"]) == 1:
+                    dl = mir.op_local(term["discr"])
+                    if dl is not None and tr.local_ty(dl) == "bool" and ("call", mb, md.name) in p.roots(dl):
+                        succ_t, fail_t = term["otherwise"], term["targets"][0][1]
+                        break
+            if succ_t is None:
+                ctx.report("C04-first-match", "success-edge", "the result of match_datum is not branched on", where_of(tr, mt))
+            else:
+                back = head in tr.reachable(succ_t)
+                fail_back = head in tr.reachable(fail_t)
+                ctx.inst("C04-first-match", "success-edge", {"success_continues_loop": back, "failure_continues_loop": fail_back})
+                if back:
+                    ctx.report("C04-first-match", "success-continues", "after a rule matches the loop continues (a later rule can win)", where_of(tr))
+                if not fail_back:
+                    ctx.report("C04-first-match", "failure-stops", "after a rule fails the remaining rules are not tried", where_of(tr))
+                if sbk not in mir.dominated_region(tr, succ_t):
+                    ctx.report("C04-first-match", "substitute-on-success", "the template is not substituted on the success edge", where_of(tr, st))
+                # result: Ok(popped single datum) derives from substitude
+                okb = [(b, s) for b, i, s, a, v in mir.aggregates(tr, mir.dominated_region(tr, succ_t)) if v == "Ok" and s["place"]["local"] == 0]
+                for b, s in okb:
+                    if SUB not in p.taint_calls(mir.op_local(s["rv"]["ops"][0])):
+                        ctx.report("C04-first-match", "result", "the expansion returned is not the substituted template", where_of(tr))
+                if not okb:
+                    ctx.report("C04-first-match", "result", "no Ok result on the success edge", where_of(tr))
 
-        # -------------------------------------------------------------- C04-no-match-error
-        ctx.rule("C04-no-match-error", "a use that matches no rule is a syntax error")
-        nsw = mir.result_switch_after(tr, nexts[0][0])
-        none_t = nsw[1].get(0, nsw[2]) if nsw else None
-        if none_t is None:
-            ctx.report("C04-no-match-error", "loop-exit", "loop exit not recognised", where_of(tr))
-        else:
-            reg = tr.reachable(none_t) - body
-            mm = any(v == "MacroMissMatch" for _, _, _, _, v in mir.aggregates(tr, reg))
-            oks = [1 for b, i, s, a, v in mir.aggregates(tr, reg) if v == "Ok" and s["place"]["local"] == 0]
-            ctx.inst("C04-no-match-error", "loop-exit", {"MacroMissMatch": mm, "builds_ok": bool(oks)})
-            if not mm or oks:
-                ctx.report("C04-no-match-error", "loop-exit", "when no rule matches the transformer does not end in "
-                           "Err(MacroMissMatch) only", where_of(tr))
+            # -------------------------------------------------------------- C04-no-match-error
+            ctx.rule("C04-no-match-error", "a use that matches no rule is a syntax error")
+            nsw = mir.result_switch_after(tr, nexts[0][0])
+            none_t = nsw[1].get(0, nsw[2]) if nsw else None
+            if none_t is None:
+                ctx.report("C04-no-match-error", "loop-exit", "loop exit not recognised", where_of(tr))
+            else:
+                reg = tr.reachable(none_t) - body
+                mm = any(v == "MacroMissMatch" for _, _, _, _, v in mir.aggregates(tr, reg))
+                oks = [1 for b, i, s, a, v in mir.aggregates(tr, reg) if v == "Ok" and s["place"]["local"] == 0]
+                ctx.inst("C04-no-match-error", "loop-exit", {"MacroMissMatch": mm, "builds_ok": bool(oks)})
+                if not mm or oks:
+                    ctx.report("C04-no-match-error", "loop-exit", "when no rule matches the transformer does not end in "
+                               "Err(MacroMissMatch) only", where_of(tr))
+    ctx.guarded('C04-first-match', d_first >= 8, _old_first)
 
     # ------------------------------------------------------------------ C04-kind-table
     ctx.rule("C04-kind-table", "decision table of match_datum over (pattern kind x datum kind)")
@@ -189,7 +194,7 @@ def run(ctx):
     rec = [(b, t) for b, t in tts.calls() if callee(t) == tts.name]
     tpc = [(b, t) for b, t in tts.calls() if callee_matches(t, "Parser::transform_procedure_call")]
     if len(gets) != 1 or len(trs) != 1 or not rec:
-        ctx.report("C04-reexpand", "shape", "macro lookup / expansion / re-submission not found (get=%d transform=%d rec=%d)" % (
+        ctx.undecided("C04-reexpand", "shape", "macro lookup / expansion / re-submission not found in transform_to_statement itself (get=%d transform=%d rec=%d)" % (
             len(gets), len(trs), len(rec)), where_of(tts))
     else:
         gs = mir.result_switch_after(tts, gets[0][0])
